@@ -166,6 +166,8 @@ class Interp(object):
         self._files = {}
         self._info = {}
         self.stats = Stats()
+        self.path_steps = 0
+        self.step_limit = None
         self.solver = z3.Solver()
         self.soft_timeout_ms = min(solver_timeout_ms, int(os.environ.get("PSX_SOFT_TIMEOUT_MS", "20000")))
         self.hard_timeout_ms = solver_timeout_ms
@@ -488,6 +490,8 @@ class Interp(object):
                     self.depth -= 1
                 self.in_prefix = True
             self.pos = 0
+            self.path_steps = 0
+            self.step_limit = None
             self._oseq = 0
             self.pc = []
             self.model = None
@@ -927,9 +931,17 @@ class Interp(object):
 
     # ------------------------------------------------------------------------------------------
     # calls
+    def _step(self):
+        self.path_steps += 1
+        if self.step_limit is not None and self.path_steps > self.step_limit:
+            lim, self.step_limit = self.step_limit, None
+            from .values import CostLimitExceeded
+            self.raise_(CostLimitExceeded("more than %d steps" % lim))
+
     def call(self, f, args, kwargs=None):
         kwargs = kwargs or {}
         self.stats.steps += 1
+        self._step()
         if isinstance(f, Closure):
             return self.run_closure(f, args, kwargs)
         if isinstance(f, types.MethodType):
@@ -1066,6 +1078,7 @@ class Interp(object):
     # statements
     def ex(self, st, fr):
         self.stats.steps += 1
+        self._step()
         h = self._ex.get(type(st))
         if h is None:
             self.unsupported("statement %s" % type(st).__name__, st)
@@ -1658,6 +1671,7 @@ class Interp(object):
         if g.is_async:
             self.unsupported("async comprehension")
         for item in self.iterate(self.ev(g.iter, fr)):
+            self._step()
             self.assign(g.target, item, fr)
             ok = True
             for c in g.ifs:
